@@ -3,8 +3,8 @@
 (* part (a):  mcp.StreamableHTTPHandler.ServeHTTP (stateful and stateless),   *)
 (* streamableServerConn.servePOST, validateMcpHeaders and mcp.SSEHandler.     *)
 (*                                                                            *)
-(*  CasesK(K)  abstract POST requests: one class per dimension, at most K     *)
-(*             dimensions away from the well-formed request of that handler   *)
+(*  Vals       abstract POST requests: one class per dimension (HttpGate.tla   *)
+(*             enumerates those at most K dimensions away from Default)       *)
 (*  Expected   the code-shaped procedure: gates in the code's order           *)
 (*  Faults     which documented preconditions a request violates              *)
 (*  Holds      the property over (case, outcome): a message is observed by    *)
@@ -56,21 +56,10 @@ Default(kind, d) ==
     [] d \in {"mm", "mn", "mp"} -> IF kind = "stateless" THEN "equal" ELSE "absent"
     [] d = "msg"      -> "call"
 
-\* all value sequences over the first i dimensions with at most K non-default entries, paired with the count
-RECURSIVE Gen(_, _, _)
-Gen(kind, i, K) ==
-  IF i = 0 THEN {<< <<>>, 0 >>}
-  ELSE LET prev == Gen(kind, i - 1, K)
-           d == DimSeq[i]
-           alt == Vals(kind, d) \ {Default(kind, d)}
-       IN {<<Append(p[1], Default(kind, d)), p[2]>> : p \in prev}
-          \cup UNION {{<<Append(p[1], v), p[2] + 1>> : v \in alt} : p \in {q \in prev : q[2] < K}}
-
 ToCase(kind, s) == [kind |-> kind, listener |-> s[1], host |-> s[2], ctype |-> s[3], accept |-> s[4], body |-> s[5],
                     vhdr |-> s[6], meta |-> s[7], mm |-> s[8], mn |-> s[9], mp |-> s[10], msg |-> s[11]]
 \* "equal to the header" needs a header
 ValidCase(c) == c.vhdr = "absent" => c.meta # "eq"
-CasesK(K) == {c \in UNION {{ToCase(k, p[1]) : p \in Gen(k, NDims, K)} : k \in Kinds} : ValidCase(c)}
 
 -----------------------------------------------------------------------------
 \* Derived attributes
